@@ -1045,7 +1045,17 @@ func callBuiltin(caller *frame, fn *ssa.Builtin, args []value) value {
 				x.n, x.symKeys = 0, 0
 			}
 		case []value:
-			panic(unsupported("clear(slice)"))
+			sig, _ := fn.Type().(*types.Signature)
+			if sig == nil || sig.Params().Len() != 1 {
+				panic(unsupported("clear(slice): no signature"))
+			}
+			st, ok := sig.Params().At(0).Type().Underlying().(*types.Slice)
+			if !ok {
+				panic(unsupported("clear(slice): " + sig.Params().At(0).Type().String()))
+			}
+			for i := range x {
+				x[i] = zero(st.Elem())
+			}
 		}
 		return nil
 
